@@ -128,9 +128,13 @@ def scan(source: str, callback: callable):
             state.start = state.end = -1
         else:
             if state.start == -1:
-                state.start = scanner.pos
+                state.start = scanner.start
 
-            if scanner.eat(Chars.LeftRound):
+            if scanner.pos != scanner.start:
+                # A selector colon (`::`, or `:` inside parentheses) has just been
+                # consumed by the check above: it is the token
+                pass
+            elif scanner.eat(Chars.LeftRound):
                 state.expression += 1
             elif scanner.eat(Chars.RightRound):
                 state.expression -= 1
